@@ -3,7 +3,7 @@
    Server / Client over a fake relay must produce accepted histories: sampled, PARTIAL).
    Switch: session identifiers and patterns as free terms (Model/Sym.v). *)
 From Coq Require Import ZArith List Bool Lia.
-From LNC Require Import Session SessionProofs Sym SidProofs.
+From LNC Require Import GoLite Noise GbnMonitor Reconnect ReconnectProofs Session SessionProofs Sym SidProofs.
 Import ListNotations.
 Open Scope Z_scope.
 
@@ -41,6 +41,24 @@ Theorem c11_stranger_rejected : forall stranger server,
   stranger_result stranger server = None.
 Proof. exact stranger_rejected. Qed.
 Print Assumptions c11_stranger_rejected.
+
+(* "a fresh working connection": one reader object serves all connections of a session (NoiseGrpcConn, handshaken
+   again on every reconnect); since its handshake clears the unread tail of the previous connection, what is read on
+   a connection is a prefix of what was written on THAT connection, for both reader kinds, any number of connections,
+   any records and any buffer sizes. Without the reset (the code before fix 8891881) the statement is false. *)
+Theorem c11_fresh_connection_starts_fresh : forall rd, rd = grpc_read \/ rd = buf_read ->
+  forall conns pending,
+  Forall (fun c : connection => Forall (fun b => 0 <= b) (snd c)) conns ->
+  Forall2 (fun outs (c : connection) => is_prefix (concat outs) (concat (fst c)))
+          (Reconnect.session true rd pending conns) conns.
+Proof. exact session_streams_are_per_connection. Qed.
+Print Assumptions c11_fresh_connection_starts_fresh.
+
+Theorem c11_stale_tail_without_reset_refuted :
+  exists conns, ~ Forall2 (fun outs (c : connection) => is_prefix (concat outs) (concat (fst c)))
+                          (Reconnect.session false grpc_read [] conns) conns.
+Proof. exact session_without_reset_refuted. Qed.
+Print Assumptions c11_stale_tail_without_reset_refuted.
 
 Example c11_ex :
   srun sinit [SCall; SRet 0; SCall; SClosed 0; SRet 1] = Some (mk_sst (Some 1) 2 0)
